@@ -53,6 +53,9 @@ def _flag_edge_justified(g: CFG, n: Node, lab, justified: EdgePred, start: Optio
         return False
     none_mode = False
     e0 = n.ast
+    while isinstance(e0, ast.UnaryOp) and isinstance(e0.op, ast.Not):
+        # `if not flag:` is `if flag:` with the edges swapped
+        e0, lab = e0.operand, ("F" if lab == "T" else "T")
     if isinstance(e0, ast.Compare) and len(e0.ops) == 1 and isinstance(e0.ops[0], (ast.Is, ast.IsNot)) and isinstance(e0.left, ast.Name) and isinstance(e0.comparators[0], ast.Constant) and e0.comparators[0].value is None:
         # sentinel flag:  x = <value> | None ... if x is not None:
         none_mode = True
